@@ -160,6 +160,34 @@ func (f *Flow) PtOf(pos token.Pos) (Pt, bool) {
 	return best, found
 }
 
+// PtOfNode: the point whose node contains n (identity), not looking through function literals.
+func (f *Flow) PtOfNode(n ast.Node) (Pt, bool) {
+	for _, pt := range f.Points() {
+		root := pt.Node()
+		if root == nil {
+			continue
+		}
+		hit := false
+		ast.Inspect(root, func(x ast.Node) bool {
+			if hit || x == nil {
+				return false
+			}
+			if x == n {
+				hit = true
+				return false
+			}
+			if _, isLit := x.(*ast.FuncLit); isLit && x != root {
+				return false
+			}
+			return true
+		})
+		if hit {
+			return pt, true
+		}
+	}
+	return Pt{}, false
+}
+
 type ExitKind int
 
 const (
